@@ -650,6 +650,19 @@ func convert(n *node) {
 }
 
 // assignFromCall assigns values from a function call.
+// genMapEntrySetter returns a function storing a value in the map entry denoted by
+// the index expression n (a destination of an assignment).
+func genMapEntrySetter(n *node) func(*frame, reflect.Value) {
+	mapv := genValue(n.child[0])
+	var key func(*frame) reflect.Value
+	if isInterfaceSrc(n.child[1].typ) {
+		key = genValueInterface(n.child[1])
+	} else {
+		key = genValue(n.child[1])
+	}
+	return func(f *frame, v reflect.Value) { mapv(f).SetMapIndex(key(f), v) }
+}
+
 func assignFromCall(n *node) {
 	ncall := n.lastChild()
 	l := len(n.child) - 1
@@ -658,11 +671,15 @@ func assignFromCall(n *node) {
 		l--
 	}
 	dvalue := make([]func(*frame) reflect.Value, l)
+	mapSet := make([]func(*frame, reflect.Value), l) // destinations which are map entries
 	for i := range dvalue {
 		if n.child[i].ident == "_" {
 			continue
 		}
 		dvalue[i] = genValue(n.child[i])
+		if isMapEntry(n.child[i]) {
+			mapSet[i] = genMapEntrySetter(n.child[i])
+		}
 	}
 	next := getExec(n.tnext)
 	n.exec = func(f *frame) bltn {
@@ -671,6 +688,10 @@ func assignFromCall(n *node) {
 				continue
 			}
 			s := f.data[ncall.findex+i]
+			if mapSet[i] != nil {
+				mapSet[i](f, s)
+				continue
+			}
 			c := n.child[i]
 			if n.kind == defineXStmt && !c.redeclared {
 				// Recreate destination value in case of define statement,
@@ -1761,6 +1782,7 @@ func callBin(n *node) {
 			// The optimization of aAssign is handled in assign(), and should not
 			// be handled here.
 			rvalues := make([]func(*frame) reflect.Value, funcType.NumOut())
+			mapSet := make([]func(*frame, reflect.Value), funcType.NumOut()) // destinations which are map entries
 			for i := range rvalues {
 				c := n.anc.child[i]
 				if c.ident == "_" {
@@ -1770,6 +1792,9 @@ func callBin(n *node) {
 					rvalues[i] = genValueInterfaceValue(c)
 				} else {
 					rvalues[i] = genValue(c)
+				}
+				if isMapEntry(c) {
+					mapSet[i] = genMapEntrySetter(c)
 				}
 			}
 			n.exec = func(f *frame) bltn {
@@ -1781,6 +1806,10 @@ func callBin(n *node) {
 				for i, v := range rvalues {
 					if v == nil {
 						continue // Skip assign "_".
+					}
+					if mapSet[i] != nil {
+						mapSet[i](f, out[i])
+						continue
 					}
 					c := n.anc.child[i]
 					if n.anc.kind == defineXStmt && !c.redeclared {
